@@ -434,6 +434,10 @@ impl Meta {
             error!("META value contained a line feed");
             return Err(Box::new(img::Error::MetadataMismatch));
         }
+        if key.contains("\r") || val.contains("\r") {
+            error!("META key or value contained a carriage return");
+            return Err(Box::new(img::Error::MetadataMismatch));
+        }
         match self.get_meta_item(key) {
             Some((i,_)) => {
                 self.recs[i] = (key.to_string(),val.to_string());
